@@ -5,4 +5,6 @@
 // https://opensource.org/licenses/MIT.
 
 pub mod find;
+#[cfg(feature = "verif_hooks")]
+pub mod verif_hooks;
 pub mod xargs;
